@@ -105,6 +105,9 @@ def scenarios():
       lambda: fdl.Partial(target, a=_co.defaultdict(list, k=[fdl.ArgFactory(Fresh)])), {'a': 'fresh'})
   S['factory-in-namedtuple-inside-factory'] = (
       lambda: fdl.Partial(target, a=fdl.ArgFactory(target, a=_Pair(fdl.ArgFactory(Fresh), 0))), {'a': 'fresh-deep'})
+  S['plain-list-next-to-factory-shared-with-another-argument'] = (
+      lambda: (lambda sh: fdl.Partial(target, a=[fdl.ArgFactory(Fresh), sh], b=sh, c={'k': (sh,)}))([1, 2]),
+      {'a': 'fresh-first-plain-rest-identical-to-b', 'b': 'same-object'})
   S['factory-direct'] = (lambda: fdl.Partial(target, a=fdl.ArgFactory(Fresh)), {'a': 'fresh'})
   S['factory-in-list'] = (lambda: fdl.Partial(target, a=[fdl.ArgFactory(Fresh), 1]), {'a': 'fresh'})
   S['factory-in-tuple'] = (lambda: fdl.Partial(target, a=(fdl.ArgFactory(Fresh), 1)), {'a': 'fresh'})
@@ -164,6 +167,18 @@ def check_scenario(name):
       fr = [[id(l) for l in ls if isinstance(l, Fresh)] for ls in leaves]
       if not all(fr) or set(fr[0]) & set(fr[1]) or set(fr[1]) & set(fr[2]):
         bad(f'slot {slot}: nested ArgFactory results were not fresh per call')
+    elif mode == 'fresh-first-plain-rest-identical-to-b':
+      if any(_has_wrapper(v) for v in vals):
+        bad(f'slot {slot}: the ArgFactory was not evaluated')
+      if vals[0][0] is vals[1][0]:
+        bad(f'slot {slot}[0]: ArgFactory result reused between calls')
+      for o in outs:
+        if o[slot][1] is not o['b'] or o['c']['k'][0] is not o['b']:
+          bad(f'slot {slot}[1]: a list without ArgFactory that is also passed as argument b arrives as a '
+              f'different object (copied) when it sits next to an ArgFactory')
+          break
+      if not (outs[0]['b'] is outs[1]['b'] is outs[2]['b']):
+        bad('slot b: a plain list was copied between calls')
     elif mode == 'shared':
       if not (vals[0] is vals[1] is vals[2]):
         bad(f'slot {slot}: a nested Config/Partial was rebuilt per call instead of once at build time')
